@@ -1,8 +1,11 @@
 use crate::{b, bytes, power_code, reg_by_name, s, u, Host};
+use sc62015_core::llama::eval::{LlamaBus, LlamaExecutor};
 use sc62015_core::llama::opcodes::RegName;
-use sc62015_core::llama::state::PowerState;
+use sc62015_core::llama::state::{LlamaState, PowerState};
+use sc62015_core::memory::MemoryImage;
 use sc62015_core::CoreRuntime;
 use serde_json::{json, Value};
+use std::collections::HashMap;
 
 mod comp;
 mod core;
@@ -93,6 +96,118 @@ pub fn machine_obs(rt: &CoreRuntime, watch: &[(u32, u32)]) -> Value {
         stack,
         w,
     ])
+}
+
+/// Read-only view of the machine's memory with buffered writes: lets the harness execute
+/// the next instruction on a *copy* of the register file to learn the state the program
+/// would be in right after that instruction and before any interrupt delivery (a Rust
+/// step delivers at its end, so that state is otherwise never visible at a boundary).
+struct ShadowBus<'a> {
+    mem: &'a MemoryImage,
+    writes: HashMap<u32, u8>,
+}
+
+impl<'a> ShadowBus<'a> {
+    fn rd(&self, addr: u32) -> u8 {
+        let a = addr & 0x00FF_FFFF;
+        if let Some(v) = self.writes.get(&a) {
+            return *v;
+        }
+        if a >= 0x100000 {
+            return self.mem.read_internal_byte_silent((a - 0x100000) & 0xFF).unwrap_or(0);
+        }
+        (self.mem.load(a, 8).unwrap_or(0) & 0xFF) as u8
+    }
+}
+
+impl<'a> LlamaBus for ShadowBus<'a> {
+    fn load(&mut self, addr: u32, bits: u8) -> u32 {
+        let n = (bits as u32).div_ceil(8).max(1);
+        let mut out = 0u32;
+        for i in 0..n {
+            out |= (self.rd(addr.wrapping_add(i)) as u32) << (8 * i);
+        }
+        out
+    }
+    fn store(&mut self, addr: u32, bits: u8, value: u32) {
+        let n = (bits as u32).div_ceil(8).max(1);
+        for i in 0..n {
+            self.writes
+                .insert(addr.wrapping_add(i) & 0x00FF_FFFF, ((value >> (8 * i)) & 0xFF) as u8);
+        }
+    }
+    fn resolve_emem(&mut self, base: u32) -> u32 {
+        base
+    }
+    fn peek_imem_silent(&mut self, offset: u32) -> u8 {
+        self.rd(0x100000 + (offset & 0xFF))
+    }
+    fn wait_cycles(&mut self, _cycles: u32) {}
+}
+
+pub fn copy_state(src: &LlamaState) -> LlamaState {
+    let mut dst = LlamaState::new();
+    for reg in [
+        RegName::BA, RegName::I, RegName::X, RegName::Y, RegName::U, RegName::S,
+        RegName::PC, RegName::F, RegName::IMR,
+    ] {
+        dst.set_reg(reg, src.get_reg(reg));
+    }
+    for i in 0..14u8 {
+        dst.set_reg(RegName::Temp(i), src.get_reg(RegName::Temp(i)));
+    }
+    dst.set_power_state(src.power_state());
+    dst.restore_call_metrics(src.snapshot_call_metrics());
+    dst
+}
+
+fn shadow_step(rt: &CoreRuntime) -> Value {
+    // Computed even when halted/off (as if the CPU resumed): the caller uses it only when
+    // the instruction counter shows that an instruction really executed in the step.
+    let mut st = copy_state(&rt.state);
+    st.set_power_state(PowerState::Running);
+    let mut bus = ShadowBus { mem: &rt.memory, writes: HashMap::new() };
+    // Device-side changes to ISR that a step applies *before* the instruction executes
+    // (they decide what an instruction reading ISR sees): powered-off steps keep only
+    // ONKI; a latched key request re-asserts KEYI outside handlers.
+    {
+        let mut isr = rt.memory.read_internal_byte_silent(0xFC).unwrap_or(0);
+        let orig = isr;
+        let mut latched = rt.timer.key_irq_latched;
+        if rt.state.power_state() == PowerState::Off {
+            if isr & 0x04 != 0 {
+                latched = false;
+            }
+            isr &= 0x08;
+        }
+        if latched && !rt.timer.in_interrupt && rt.keyboard.is_some() {
+            isr |= 0x04;
+        }
+        if isr != orig {
+            bus.writes.insert(0x1000FC, isr);
+        }
+    }
+    let pc = st.get_reg(RegName::PC) & 0xFFFFF;
+    let opcode = bus.load(pc, 8) as u8;
+    let mut exec = LlamaExecutor::new();
+    let res = std::panic::catch_unwind(std::panic::AssertUnwindSafe(|| {
+        exec.execute(opcode, &mut st, &mut bus)
+    }));
+    match res {
+        Ok(Ok(_)) => json!([
+            st.get_reg(RegName::PC) & 0xFFFFF,
+            st.get_reg(RegName::F) & 0xFF,
+            st.get_reg(RegName::S) & 0xFFFFFF,
+            opcode,
+            bus.rd(0x1000FB),
+            st.get_reg(RegName::BA) & 0xFFFF,
+            st.get_reg(RegName::I) & 0xFFFF,
+            st.get_reg(RegName::X) & 0xFFFFFF,
+            st.get_reg(RegName::Y) & 0xFFFFFF,
+            st.get_reg(RegName::U) & 0xFFFFFF,
+        ]),
+        _ => Value::Null,
+    }
 }
 
 fn parse_watch(v: Option<&Value>) -> Vec<(u32, u32)> {
@@ -380,10 +495,18 @@ fn machine(host: &mut Host, name: &str, op: &Value) -> Result<Option<Value>, Str
             let stop_hi = op.get(6).and_then(|x| x.as_u64()).unwrap_or(0xFFFFFF) as u32;
             let mut obs: Vec<Value> = Vec::with_capacity(n + 1);
             let mut evout: Vec<Value> = Vec::new();
+            let mut preobs: Vec<Value> = Vec::new();
             let mut err = Value::Null;
             let mut ei = 0usize;
-            obs.push(machine_obs(mach(host, slot)?, &watch));
+            {
+                let mut o = machine_obs(mach(host, slot)?, &watch);
+                if let Some(arr) = o.as_array_mut() {
+                    arr.push(Value::Null);
+                }
+                obs.push(o);
+            }
             for k in 0..n {
+                let had_events = ei < events.len() && (u(&events[ei], 0)? as usize) <= k;
                 while ei < events.len() && (u(&events[ei], 0)? as usize) <= k {
                     let ev = &events[ei];
                     let sub = Value::Array(ev.as_array().map(|a| a[1..].to_vec()).unwrap_or_default());
@@ -393,20 +516,34 @@ fn machine(host: &mut Host, name: &str, op: &Value) -> Result<Option<Value>, Str
                     }
                     ei += 1;
                 }
+                if had_events {
+                    // observation after the ops and before the step: attributes every
+                    // later change to the step itself
+                    let mut o = machine_obs(mach(host, slot)?, &watch);
+                    if let Some(arr) = o.as_array_mut() {
+                        arr.push(Value::Null);
+                    }
+                    preobs.push(json!([k, o]));
+                }
                 let rt = mach(host, slot)?;
                 let pc = rt.state.get_reg(RegName::PC) & 0xFFFFF;
                 if rt.state.power_state() == PowerState::Running && (pc < stop_lo || pc > stop_hi) {
                     err = json!({"at": k, "msg": "left_code"});
                     break;
                 }
-                if let Err(e) = rt.step(1) {
+                let shadow = shadow_step(rt);
+                let step_res = rt.step(1);
+                let mut o = machine_obs(rt, &watch);
+                if let Some(arr) = o.as_array_mut() {
+                    arr.push(shadow);
+                }
+                obs.push(o);
+                if let Err(e) = step_res {
                     err = json!({"at": k, "msg": format!("{e}")});
-                    obs.push(machine_obs(rt, &watch));
                     break;
                 }
-                obs.push(machine_obs(rt, &watch));
             }
-            Ok(Some(json!({"obs": obs, "evout": evout, "err": err})))
+            Ok(Some(json!({"obs": obs, "evout": evout, "preobs": preobs, "err": err})))
         }
         "stepn" => {
             // one call to step(n): for split-run equality (C07/C18)
